@@ -5,16 +5,28 @@
 //          every other byte of memory and every register unchanged, for every line and every register content
 verus! {
 
-pub enum ByteReg { AL, AH, BL, BH, CL, CH, DL, DH }
-// assumed contract, discharged by Kani unit l0_get_byte_reg
-#[verifier::external_body]
-pub fn get_byte_reg(vm: &VM, reg: ByteReg) -> (r: u8)
+// byte registers: the REAL get_byte_reg / set_byte_reg (data_util.rs, verbatim); the bit-vector facts are hints
+//@item src/lib/util/data_util.rs enum ByteReg
+pub proof fn lemma_halves(w: u16, v: u8)
+    ensures ((w & 0xFFu16) as u8) == (w % 256) as u8, (((w & !0xFFu16) >> 8) as u8) == (w / 256) as u8,
+        ((w & !0xFFu16) | v as u16) == ((w / 256) * 256 + v) as u16, ((w & 0xFFu16) | (v as u16) << 8) == ((w % 256) + v * 256) as u16,
+        (255i16 as u16) == 0xFFu16,
+{
+    assert(((w & 0xFFu16) as u8) == (w % 256) as u8) by (bit_vector);
+    assert((((w & !0xFFu16) >> 8) as u8) == (w / 256) as u8) by (bit_vector);
+    assert(((w & !0xFFu16) | v as u16) == ((w / 256) * 256 + v) as u16) by (bit_vector);
+    assert(((w & 0xFFu16) | (v as u16) << 8) == ((w % 256) + v * 256) as u16) by (bit_vector);
+    assert((255i16 as u16) == 0xFFu16) by (bit_vector);
+}
+//@fn src/lib/util/data_util.rs get_byte_reg
+//@contract
     ensures r == (match reg {
         ByteReg::AL => vm.arch.ax % 256, ByteReg::AH => vm.arch.ax / 256,
         ByteReg::BL => vm.arch.bx % 256, ByteReg::BH => vm.arch.bx / 256,
         ByteReg::CL => vm.arch.cx % 256, ByteReg::CH => vm.arch.cx / 256,
         ByteReg::DL => vm.arch.dx % 256, ByteReg::DH => vm.arch.dx / 256 }),
-{ unimplemented!() }
+//@before match reg :: proof { lemma_halves(vm.arch.ax, 0); lemma_halves(vm.arch.bx, 0); lemma_halves(vm.arch.cx, 0); lemma_halves(vm.arch.dx, 0); }
+//@end
 
 pub open spec fn lit_is(k: int, lit: int) -> bool { k == lit }
 
@@ -78,9 +90,8 @@ pub open spec fn stored(vm: &VM, line: &[u8]) -> int {
 //@end
 //@end
 
-// assumed contract, discharged by Kani unit l0_set_byte_reg
-#[verifier::external_body]
-pub fn set_byte_reg(vm: &mut VM, reg: ByteReg, val: u8)
+//@fn src/lib/util/data_util.rs set_byte_reg
+//@contract
     ensures final(vm).mem == old(vm).mem,
         final(vm).arch.flag == old(vm).arch.flag, final(vm).arch.sp == old(vm).arch.sp, final(vm).arch.bp == old(vm).arch.bp,
         final(vm).arch.si == old(vm).arch.si, final(vm).arch.di == old(vm).arch.di, final(vm).arch.ip == old(vm).arch.ip,
@@ -89,7 +100,8 @@ pub fn set_byte_reg(vm: &mut VM, reg: ByteReg, val: u8)
         final(vm).arch.bx == (match reg { ByteReg::BL => ((old(vm).arch.bx / 256) * 256 + val) as u16, ByteReg::BH => ((old(vm).arch.bx % 256) + val * 256) as u16, _ => old(vm).arch.bx }),
         final(vm).arch.cx == (match reg { ByteReg::CL => ((old(vm).arch.cx / 256) * 256 + val) as u16, ByteReg::CH => ((old(vm).arch.cx % 256) + val * 256) as u16, _ => old(vm).arch.cx }),
         final(vm).arch.dx == (match reg { ByteReg::DL => ((old(vm).arch.dx / 256) * 256 + val) as u16, ByteReg::DH => ((old(vm).arch.dx % 256) + val * 256) as u16, _ => old(vm).arch.dx }),
-{ unimplemented!() }
+//@before match reg :: proof { lemma_halves(vm.arch.ax, val); lemma_halves(vm.arch.bx, val); lemma_halves(vm.arch.cx, val); lemma_halves(vm.arch.dx, val); }
+//@end
 
 pub open spec fn seq_len(line: Seq<u8>) -> int {
     if line.len() > 0 && line[line.len() - 1] == 10u8 { line.len() - 1 } else { line.len() as int }
